@@ -1,8 +1,138 @@
-import TLVerif.Jsonp.Reader
-/-! C34 — JSON primitive writers emit valid, exactly-decodable JSON (work in progress). -/
+import TLVerif.Jsonp.NumLemmas
+import TLVerif.Jsonp.FloatLemmas
+/-!
+# C34 — JSON primitive writers emit valid, exactly-decodable JSON
+
+Statement (fixed): *For every string the string writer emits valid JSON that decodes to the same text when the
+string is valid UTF-8 and to a base64 object holding the same bytes otherwise, and every number writer emits text
+that the JSON readers decode to the same number (floats bit-exactly; NaN and infinities as their documented
+strings).*  Quantifier: all byte strings, all uint32/int32/int64/uint64 values, all float32/float64 bit patterns.
+
+Model: `TLVerif.Jsonp.Writer` (`JSONWriteString[Bytes]`, integer writers, `jsonWriteFloatSpecial` of
+`pkg/basictl/basictl.go`), `TLVerif.Jsonp.Reader` (the generated `Json2Read*` helpers over `jlexer`),
+`TLVerif.Jsonp.Utf8`, `TLVerif.Jsonp.Base64` (the standard-library routines both sides call).
+`safeSet`, `hex`, `binaryJSONStringStart/End` are regenerated from the source (T1).
+
+What is a theorem here: everything in the statement except the digits of *finite* floats
+(`strconv.AppendFloat(…,'f',-1,…)` / `ParseFloat`, trusted; their bit-exact round trip is checked on the
+implementation by the differential run only).
+-/
 namespace TLVerif.Props.C34
 open TLVerif.Jsonp
 
-theorem float_special_nan : writeFloatSpecial .nan = some [0x22, 0x4E, 0x61, 0x4E, 0x22] := by decide
+/-! ## Strings -/
+
+/-- the base64 object `{"base64":"<body>"}` of the JSON grammar -/
+def IsJsonB64Object (bs body : Bytes) : Prop :=
+  bs = [0x7B] ++ (0x22 :: ([0x62, 0x61, 0x73, 0x65, 0x36, 0x34] ++ [0x22])) ++ [0x3A] ++ (0x22 :: (body ++ [0x22])) ++ [0x7D]
+    ∧ JChars body
+
+/-- Go's `utf8.Valid` (table driven; overlongs, surrogates, > U+10FFFF, truncation) is exactly Unicode
+well-formedness: a concatenation of encodings of scalar values. -/
+theorem utf8_valid_iff_wellformed (s : Bytes) : utf8Valid s = true ↔ WellFormedUtf8 s := utf8Valid_iff s
+
+/-- Valid UTF-8 in: the output is an RFC 8259 string (grammar), and by the RFC's meaning of escapes it denotes
+exactly the input text. -/
+theorem string_valid_and_denotes (s : Bytes) (hv : utf8Valid s = true) :
+    IsJsonString (writeString s) ∧ ∃ body, writeString s = 0x22 :: (body ++ [0x22]) ∧ JDec body s := by
+  have hd := escape_denotes s hv
+  rw [writeString_valid s hv]
+  exact ⟨⟨_, rfl, hd.chars⟩, _, rfl, hd⟩
+
+/-- Anything else in: the output is the JSON object `{"base64":"…"}` whose value is the standard padded base64 of
+the input, and base64-decoding it (Go's decoder) gives the input bytes back. -/
+theorem string_invalid_is_base64_object (s : Bytes) (hv : utf8Valid s = false) :
+    IsJsonB64Object (writeString s) (b64encode s) ∧ b64decode (b64encode s) = some s := by
+  refine ⟨⟨?_, plainText_json _ (b64encode_plain s)⟩, b64_roundtrip s⟩
+  rw [writeString_invalid s hv]; simp
+
+/-- base64 `Decode ∘ Encode = id`, for every byte string -/
+theorem base64_roundtrip (b : Bytes) : b64decode (b64encode b) = some b := b64_roundtrip b
+
+/-- `jlexer`'s unescaping computes the RFC denotation (so the round trip below is not an artefact of the reader) -/
+theorem jlexer_unescape_sound (raw u : Bytes) (h : JDec raw u) : unescape raw = some u := unescape_of_denotes h
+
+/-- The generated reader (`Json2ReadString` / `Json2ReadStringBytes` over `jlexer`), run on what `JSONWriteString`
+wrote followed by arbitrary bytes, returns exactly the written bytes and stops right behind them — for **every**
+byte string (valid UTF-8 through the string form, everything else through the base64 object). -/
+theorem string_roundtrip (s rest : Bytes) : readString (writeString s ++ rest) = .ok s (writeString s).length :=
+  readString_writeString s rest
+
+/-- hence the string writer is injective -/
+theorem string_writer_injective (s₁ s₂ : Bytes) (h : writeString s₁ = writeString s₂) : s₁ = s₂ := by
+  have h1 := string_roundtrip s₁ []
+  have h2 := string_roundtrip s₂ []
+  rw [h] at h1
+  rw [h1] at h2
+  injection h2
+
+/-! ## Integers -/
+
+theorem uint_is_json_number (n : Nat) : IsJsonUInt (formatUint n) := (formatUint_json n).1
+theorem int_is_json_number (v : Int) : IsJsonInt (formatInt v) := formatInt_json v
+
+/-- the condition under which a number token ends where the writer stopped -/
+def TokenEnds (rest : Bytes) : Prop := rest = [] ∨ ∃ e r, rest = e :: r ∧ isTokenEnd e = true
+
+theorem uint32_roundtrip (n : Nat) (h : n < 2 ^ 32) (rest : Bytes) (hr : TokenEnds rest) :
+    readUint 32 (formatUint n ++ rest) = .ok n (formatUint n).length
+    ∧ readUint 32 (0x22 :: (formatUint n ++ 0x22 :: rest)) = .ok n ((formatUint n).length + 2) :=
+  ⟨readUint_formatUint 32 n h rest hr, readUint_quoted 32 n h rest⟩
+
+theorem uint64_roundtrip (n : Nat) (h : n < 2 ^ 64) (rest : Bytes) (hr : TokenEnds rest) :
+    readUint 64 (formatUint n ++ rest) = .ok n (formatUint n).length
+    ∧ readUint 64 (0x22 :: (formatUint n ++ 0x22 :: rest)) = .ok n ((formatUint n).length + 2) :=
+  ⟨readUint_formatUint 64 n h rest hr, readUint_quoted 64 n h rest⟩
+
+theorem int32_roundtrip (v : Int) (hlo : -(2 ^ 31 : Int) ≤ v) (hhi : v < (2 ^ 31 : Int)) (rest : Bytes) (hr : TokenEnds rest) :
+    readInt 32 (formatInt v ++ rest) = .ok v (formatInt v).length
+    ∧ readInt 32 (0x22 :: (formatInt v ++ 0x22 :: rest)) = .ok v ((formatInt v).length + 2) :=
+  ⟨readInt_formatInt 32 v (by omega) (by omega) hlo hhi rest hr, readInt_quoted 32 v (by omega) (by omega) hlo hhi rest⟩
+
+theorem int64_roundtrip (v : Int) (hlo : -(2 ^ 63 : Int) ≤ v) (hhi : v < (2 ^ 63 : Int)) (rest : Bytes) (hr : TokenEnds rest) :
+    readInt 64 (formatInt v ++ rest) = .ok v (formatInt v).length
+    ∧ readInt 64 (0x22 :: (formatInt v ++ 0x22 :: rest)) = .ok v ((formatInt v).length + 2) :=
+  ⟨readInt_formatInt 64 v (by omega) (by omega) hlo hhi rest hr, readInt_quoted 64 v (by omega) (by omega) hlo hhi rest⟩
+
+/-- a reader of one width accepts the text of another width only when the value fits (range errors are errors) -/
+theorem uint_out_of_range_rejected (bits n : Nat) (h : ¬ n < 2 ^ bits) : parseUint (formatUint n) bits = none := by
+  obtain ⟨h1, h2, h3⟩ := formatUint_spec n
+  unfold parseUint
+  have : (formatUint n).isEmpty = false := by simpa using h3
+  rw [this]
+  simp only [Bool.false_eq_true, ↓reduceIte, h1]
+  change (if digitsVal (formatUint n) < 2 ^ bits then some (digitsVal (formatUint n)) else none) = none
+  rw [h2]; simp [h]
+
+/-! ## Float specials -/
+
+/-- every float32/float64 bit pattern is written as a documented string iff it is not finite; the string is a JSON
+string and `Json2ReadFloat32/64` reads it back as the same class (NaN as a NaN, each infinity as itself), whatever
+follows -/
+theorem float_special (ebits mbits bits : Nat) (rest : Bytes) :
+    (floatClass ebits mbits bits = .finite ∧ writeFloatSpecial (floatClass ebits mbits bits) = none) ∨
+    ∃ t, writeFloatSpecial (floatClass ebits mbits bits) = some t ∧ IsJsonString t
+      ∧ readFloatSpecial (t ++ rest) = some (floatClass ebits mbits bits, t.length) := by
+  by_cases h : floatClass ebits mbits bits = .finite
+  · left; rw [h]; exact ⟨rfl, rfl⟩
+  · right
+    obtain ⟨t, h1, h2, h3⟩ := float_special_roundtrip _ h rest
+    exact ⟨t, h1, h3, h2⟩
+
+theorem float_class_fields (ebits mbits bits : Nat) :
+    (floatClass ebits mbits bits = .finite ↔ bits / 2 ^ mbits % 2 ^ ebits ≠ 2 ^ ebits - 1) ∧
+    (floatClass ebits mbits bits = .nan ↔ bits / 2 ^ mbits % 2 ^ ebits = 2 ^ ebits - 1 ∧ bits % 2 ^ mbits ≠ 0) :=
+  ⟨(floatClass_spec ebits mbits bits).1, (floatClass_spec ebits mbits bits).2.1⟩
+
+/-! ## The hypotheses are satisfiable, the branches are all reachable -/
+
+example : utf8Valid [0x68, 0x0A, 0x22, 0xE2, 0x80, 0xA8, 0xF0, 0x9F, 0x98, 0x80] = true := by decide
+example : utf8Valid [0xED, 0xA0, 0x80] = false := by decide        -- a UTF-8 encoded surrogate
+example : utf8Valid [0xC0, 0x80] = false := by decide              -- overlong
+example : utf8Valid [0xF4, 0x90, 0x80, 0x80] = false := by decide  -- above U+10FFFF
+example : TokenEnds [0x2C, 0x31] := Or.inr ⟨_, _, rfl, by decide⟩
+example : floatClass 11 52 0x7FF8000000000001 = .nan := by decide
+example : floatClass 8 23 0xFF800000 = .ninf := by decide
+example : floatClass 11 52 0x8000000000000000 = .finite := by decide
 
 end TLVerif.Props.C34
